@@ -26,6 +26,12 @@ CHECKS = {
  'C19': ('scan', 'complete enumeration of the finite set of shipped profile and abstraction files; every file also goes through the real userspace builder',
          'The quantifier domain is the shipped tree itself: all 1552 profile files and 129 abstractions are checked against the layout contract by an independent scanner, and the real userspace builder must accept every one.',
          'independent scanner, not tests/check.sh', 'DESIGN.md §4 C19'),
+ 'C06': ('dfax', 'exhaustive breadth-first exploration of the product of two DFAs compiled by the reference apparmor_parser (variable form vs built literal) for every shipped profile, every exec directive and generated preambles run through the real builder',
+         'Language equality is decided on the automata the kernel would execute: every reachable state pair of the product is visited, so a path matched by one side only is found if it exists (shortest first).',
+         'apparmor_parser 3.0.8 compiles both sides over the tunables of the same build; reader of the compiled policy self-tested against a naive glob matcher on 6820 (pattern, string) pairs', 'DESIGN.md §4 C06'),
+ 'C13': ('libx', 'bounded-exhaustive enumeration of all preambles of <= 6 distinct lines over a 14-line alphabet on the real Parse+Resolve, against a reference expander that is conformance-checked against apparmor_parser on every preamble of <= 4 lines',
+         'All 2.2 million sequences (thorough) are executed on the real code; the reference model is bound to the real AppArmor parser by replaying every short sequence against `-D expanded-variables`.',
+         'reference expander in engine/gox/cmd/c13x; apparmor_parser 3.0.8', 'DESIGN.md §4 C13'),
 }
 PENDING = {}
 def main():
